@@ -1315,8 +1315,11 @@ class MultiDimGridPDF(
         self._cache_tdm_trial_data_state_id = tdm.trial_data_state_id
 
         if self._cache_pd is None:
+            # The cache holds all N_values values. If only a subset of the
+            # values is given, the length is defined by the event mask.
+            shape = pd.shape if evt_mask is None else evt_mask.shape
             self._cache_pd = np.full(
-                pd.shape,
+                shape,
                 np.nan,
                 dtype=np.float64)
 
